@@ -10,6 +10,7 @@ from __future__ import annotations
 
 import argparse
 import io
+import os
 import sys
 import traceback
 from typing import Any
@@ -49,12 +50,22 @@ class ShortReadRaw(io.RawIOBase):
 
 
 class CapturedText(io.StringIO):
-    """An output text file whose content survives close()."""
+    """An output text file whose content survives close().  Like a real text stream it has
+    an encoding (the locale's, or PYTHONIOENCODING's) and refuses what that cannot encode."""
 
-    def __init__(self) -> None:
+    def __init__(self, encoding: str = "utf-8") -> None:
         super().__init__()
         self.final: Optional[str] = None
         self.closed_by_cli = False
+        self._enc = encoding
+
+    @property
+    def encoding(self) -> str:  # type: ignore[override]
+        return self._enc
+
+    def write(self, text: str) -> int:
+        text.encode(self._enc)  # raises UnicodeEncodeError exactly where a real stream would
+        return super().write(text)
 
     def close(self) -> None:
         self.final = self.getvalue()
@@ -66,15 +77,16 @@ class CapturedText(io.StringIO):
 
 
 class FakeFS:
-    def __init__(self, files: Dict[str, bytes], chunks: List[int]) -> None:
+    def __init__(self, files: Dict[str, bytes], chunks: List[int], out_encoding: str = "utf-8") -> None:
         self.files = dict(files)
         self.chunks = chunks
+        self.out_encoding = out_encoding
         self.outputs: Dict[str, CapturedText] = {}
         self.raws: List[ShortReadRaw] = []
 
     def open(self, name: str, mode: str = "r", buffering: int = -1, encoding: Optional[str] = None, errors: Optional[str] = None, *a: Any, **k: Any) -> Any:
         if "w" in mode or "a" in mode or "+" in mode or "x" in mode:
-            out = CapturedText()
+            out = CapturedText(encoding or self.out_encoding)
             old = self.files.get(name)
             if old is not None and "w" not in mode:
                 # a pre-existing file opened without truncation keeps its content
@@ -103,17 +115,28 @@ def run_cli(
     *,
     stdin_errors: str = "strict",
     chunks: Optional[List[int]] = None,
+    tty: bool = False,
+    environ: Optional[Dict[str, Optional[str]]] = None,
+    module: Any = None,
+    out_encoding: str = "utf-8",
 ) -> Dict[str, Any]:
     """Run ``main()`` in-process on the fake file system / stdio.
 
     Returns status, stdout, stderr, output files, whether an exception escaped
     (= traceback + status 1 in a real process) and its class.
     """
-    fs = FakeFS(files, chunks or [])
+    fs = FakeFS(files, chunks or [], out_encoding)
     raw_in = ShortReadRaw(stdin_bytes, chunks or [])
     stdin = io.TextIOWrapper(io.BufferedReader(raw_in, buffer_size=16), encoding="utf-8", errors=stdin_errors)
-    stdout, stderr = CapturedText(), CapturedText()
+    stdout, stderr = CapturedText(out_encoding), CapturedText("utf-8")
+    if tty:
+        # the tool may ask whether it talks to a terminal
+        stdout.isatty = lambda: True  # type: ignore[method-assign]
+        stderr.isatty = lambda: True  # type: ignore[method-assign]
     saved = (sys.stdin, sys.stdout, sys.stderr, sys.argv)
+    saved_env = {k: os.environ.get(k) for k in (environ or {})}
+    mod_had_open = module is not None and "open" in vars(module)
+    mod_saved_open = vars(module).get("open") if module is not None else None
     had_open = hasattr(argparse, "open")
     saved_open = getattr(argparse, "open", None)
     escaped = None
@@ -123,6 +146,13 @@ def run_cli(
         sys.stdin, sys.stdout, sys.stderr = stdin, stdout, stderr
         sys.argv = ["jsonpath-rfc9535", *argv]
         argparse.open = fs.open  # type: ignore[attr-defined]
+        if module is not None:
+            module.open = fs.open  # an open() written in the CLI module itself sees the same file system
+        for k, v in (environ or {}).items():
+            if v is None:
+                os.environ.pop(k, None)
+            else:
+                os.environ[k] = v
         try:
             main()
         except SystemExit as exc:
@@ -140,6 +170,19 @@ def run_cli(
             tb_text = "".join(traceback.format_exception(exc))
     finally:
         sys.stdin, sys.stdout, sys.stderr, sys.argv = saved
+        for k, v in saved_env.items():
+            if v is None:
+                os.environ.pop(k, None)
+            else:
+                os.environ[k] = v
+        if module is not None:
+            if mod_had_open:
+                module.open = mod_saved_open
+            else:
+                try:
+                    del module.open
+                except AttributeError:
+                    pass
         if had_open:
             argparse.open = saved_open  # type: ignore[attr-defined]
         else:
